@@ -87,3 +87,8 @@ func init() {
 	extFuncs[coreMod+"/consensus.MidState.siafundElement"] = "siafundElement"
 	tcodeRoots = append(tcodeRoots, "consensus.validateSiacoins", "consensus.validateSiafunds")
 }
+
+func init() {
+	// C03 — attestations and the Foundation address update (whole functions)
+	tcodeRoots = append(tcodeRoots, "consensus.validateAttestations", "consensus.validateFoundationUpdate")
+}
